@@ -284,7 +284,7 @@ Qed.
 Lemma pres_d_free1 s : Inv s -> cp (C s) = DFree1 -> Inv (d_free1 s).
 Proof.
   intros Hi Ecp. assert (Hp : pcls (cp (C s)) <= 2) by (rewrite Ecp; cbn; lia).
-  pose proof (I_c _ _ Hi) as Hc. unfold cinv in Hc. rewrite Ecp in Hc. destruct Hc as [[D K] [H1 H2]].
+  pose proof (I_c _ _ Hi) as Hc. unfold cinv in Hc. rewrite Ecp in Hc. destruct Hc as [[D [K KH]] [H1 H2]].
   destruct (drop_idle B Bpos s Hi D) as [IDL TF].
   destruct (I_hd _ _ Hi) as [HL HP]. unfold hpos in HP. rewrite Ecp in HP.
   pose proof (I_mon _ _ Hi) as MON. destruct (I_abs _ _ Hi) as [AQ AP]. destruct (I_rng _ _ Hi) as (R1 & R2 & R3 & R4 & R5 & R6).
@@ -303,7 +303,7 @@ Qed.
 Lemma pres_d_free2 s : Inv s -> cp (C s) = DFree2 -> Inv (d_free2 s).
 Proof.
   intros Hi Ecp.
-  pose proof (I_c _ _ Hi) as Hc. unfold cinv in Hc. rewrite Ecp in Hc. destruct Hc as [[D K] H1].
+  pose proof (I_c _ _ Hi) as Hc. unfold cinv in Hc. rewrite Ecp in Hc. destruct Hc as [[D [K KH]] H1].
   destruct (drop_idle B Bpos s Hi D) as [IDL TF].
   destruct (I_hd _ _ Hi) as [HL HP]. unfold hpos in HP. rewrite Ecp in HP.
   pose proof (I_mon _ _ Hi) as MON. destruct (I_abs _ _ Hi) as [AQ AP]. destruct (I_rng _ _ Hi) as (R1 & R2 & R3 & R4 & R5 & R6).
@@ -322,7 +322,7 @@ Qed.
 Lemma pres_d_old s : Inv s -> cp (C s) = DOld -> Inv (d_old s).
 Proof.
   intros Hi Ecp.
-  pose proof (I_c _ _ Hi) as Hc. unfold cinv in Hc. rewrite Ecp in Hc. destruct Hc as [D K].
+  pose proof (I_c _ _ Hi) as Hc. unfold cinv in Hc. rewrite Ecp in Hc. destruct Hc as [D [K KH]].
   destruct (drop_idle B Bpos s Hi D) as [IDL TF].
   destruct (I_hd _ _ Hi) as [HL HP]. unfold hpos in HP. rewrite Ecp in HP.
   pose proof (I_mon _ _ Hi) as MON. destruct (I_abs _ _ Hi) as [AQ AP]. destruct (I_rng _ _ Hi) as (R1 & R2 & R3 & R4 & R5 & R6).
